@@ -56,7 +56,7 @@ open Avra.Peg Avra.Lemmas.Fuel Avra.Props.C14
 
 /-- characters an operand text can start with -/
 def StartChar (y : Char) : Prop :=
-  isIdentStart y = true ∨ isDigit y = true ∨ y = '(' ∨ y = '-' ∨ y = '~' ∨ y = '!' ∨ y = '$'
+  isIdentStart y = true ∨ isDigit y = true ∨ y = '(' ∨ y = '-' ∨ y = '~' ∨ y = '!' ∨ y = '$' ∨ y = '\''
 
 /-- operator characters that start no operand -/
 def nonStart (y : Char) : Prop := y = '<' ∨ y = '=' ∨ y = '>' ∨ y = '|' ∨ y = '&'
@@ -74,7 +74,7 @@ def okBefore : Str → Str → Bool
 theorem startChar_not_nonStart (c : Char) (hc : StartChar c) : ¬ nonStart c := by
   intro hn
   rcases hn with rfl | rfl | rfl | rfl | rfl <;>
-    (rcases hc with h | h | h | h | h | h | h <;> revert h <;> decide)
+    (rcases hc with h | h | h | h | h | h | h | h <;> revert h <;> decide)
 
 theorem lit_before (t : Str) : ∀ (o : Str), okBefore t o = true → ∀ (c : Char) (rest : Str), StartChar c →
     lit t (o ++ c :: rest) = none ∨ ∃ y ys, lit t (o ++ c :: rest) = some (y :: ys) ∧ nonStart y := by
@@ -337,7 +337,7 @@ theorem exprText_head (e : Expr) (h : Wf e) : ∃ y ys, exprText e = y :: ys ∧
     refine ⟨y, ys, by simp [exprText, hy], ?_⟩
     rcases hd with hd | hd
     · exact Or.inr (Or.inl hd)
-    · exact Or.inr (Or.inr (Or.inr (Or.inr (Or.inr (Or.inr hd)))))
+    · exact Or.inr (Or.inr (Or.inr (Or.inr (Or.inr (Or.inr (Or.inl hd))))))
   | func name a hn _ =>
     obtain ⟨x, xs, rfl, hx, _⟩ := hn
     exact ⟨x, xs ++ '(' :: exprText a ++ [')'], by simp [exprText], Or.inl hx⟩
@@ -349,7 +349,7 @@ theorem exprText_head (e : Expr) (h : Wf e) : ∃ y ys, exprText e = y :: ys ∧
     | lnot => exact ⟨'!', exprText e, by simp [exprText, UnOp.text], Or.inr (Or.inr (Or.inr (Or.inr (Or.inr (Or.inl rfl)))))⟩
 
 theorem startChar_noSpace (y : Char) (h : StartChar y) : isSpace y = false := by
-  rcases h with h | h | rfl | rfl | rfl | rfl | rfl
+  rcases h with h | h | rfl | rfl | rfl | rfl | rfl | rfl
   · exact (identStart_facts y h).2.1
   · cases hsp : isSpace y with
     | false => rfl
